@@ -62,7 +62,8 @@ def run(ctx):
         if cfg.startswith("execsub:"):
             schema = c01.schema_of(b, "subschema")
             try:
-                lines = c01.run_config(ctx, b, n_rand, ctx.seed, "sub")    # every event of every subscription, 4% panics
+                lines = c01.run_corpus(ctx, b, "C01sub", split=True)       # directed: SUBSCRIPTION-location directives pass / error / block
+                lines += c01.run_config(ctx, b, n_rand, ctx.seed, "sub")   # every event of every subscription, 4% panics
             except RuntimeError as e:
                 ctx.violation({"kind": "crash", "config": cfg, "stderr": str(e)[-4000:], "shape": {"crash": True},
                                "replay": "%s -mode gen -profile sub -n %d -seed %d" % (b, n_rand, ctx.seed)})
@@ -102,6 +103,8 @@ def run(ctx):
                 why.append("crash")
             if r.get("hung"):
                 why.append("hung")
+            # a subscription whose stream was never created (failed operation-level directive): one response, then the end
+            why += c01.stream_shape(r)
             if not m.startswith("{"):
                 why.append("model:" + m[:40])
                 mj = m
@@ -187,7 +190,7 @@ def run(ctx):
                "plan": r.get("plan"), "fault": r.get("fault"), "impl": r["payloads"], "recovers": r["recovers"],
                "model": mj, "shape": {"why": ",".join(sorted(w.split(":")[0] for w in why))},
                "replay": "echo '<case json>' | <generated server %s> -mode run" % cfg}
-        failing = any(w in ("data", "errors", "invocations", "recovers", "crash", "hung") or w.startswith("spec:") for w in why)
+        failing = any(w in ("data", "errors", "invocations", "recovers", "crash", "hung") or w.startswith("spec:") or w.startswith("stream-") or w.startswith("responses") for w in why)
         ctx.violation(rep, no_failing_input=not failing)
     if ok_extract and not proved and not ctx.violations:
         # e.g. a recover was removed from a template: name the broken obligation and the unprotected sites
